@@ -169,3 +169,89 @@ func Exec(cur realm, s string) {
 	}
 }
 `
+
+// PathST is the "storage machine" realm of the C09 harness: string blobs in a
+// map, a list of separately persisted items, and chain/params byte values —
+// three ways to grow and shrink a realm's accounted storage.
+// PathSP sits at the designated system-params path, so it may change the vm
+// module's storage price in the middle of a message that also grows its own state.
+const (
+	PathST = "gno.land/r/c06/st"
+	PathSP = "gno.land/r/sys/params"
+)
+
+const BodyST = `package st
+
+import (
+	"chain/params"
+	"strings"
+)
+
+type Item struct {
+	Data string
+}
+
+var (
+	blobs map[string]string
+	items []*Item
+)
+
+// Blob sets blob k to n bytes (n < 0: delete).
+func Blob(cur realm, k string, n int) {
+	if blobs == nil {
+		blobs = map[string]string{}
+	}
+	if n < 0 {
+		delete(blobs, k)
+		return
+	}
+	blobs[k] = strings.Repeat("x", n)
+}
+
+// Push appends n items of the given payload size.
+func Push(cur realm, n, size int) {
+	for i := 0; i < n; i++ {
+		items = append(items, &Item{Data: strings.Repeat("y", size)})
+	}
+}
+
+// Pop removes (and unreferences) the last n items.
+func Pop(cur realm, n int) {
+	for i := 0; i < n && len(items) > 0; i++ {
+		items[len(items)-1] = nil
+		items = items[:len(items)-1]
+	}
+}
+
+// Param sets chain parameter k of this realm to n zero bytes (n < 0: delete).
+func Param(cur realm, k string, n int) {
+	if n < 0 {
+		params.SetBytes(k, nil)
+		return
+	}
+	params.SetBytes(k, make([]byte, n))
+}
+
+// Clear drops everything.
+func Clear(cur realm) {
+	blobs = nil
+	items = nil
+}
+`
+
+const BodySP = `package params
+
+import (
+	"strings"
+	sp "sys/params"
+)
+
+var pad string
+
+// SetPrice changes the vm module's storage price and, in the same message,
+// resizes this realm's own state to n bytes of padding.
+func SetPrice(cur realm, price string, n int) {
+	sp.SetSysParamString("vm", "p", "storage_price", price)
+	pad = strings.Repeat("p", n)
+}
+`
